@@ -964,6 +964,25 @@ def broken_twin(spec):
     return bad
 
 
+def broken_twin_in_build(spec):
+    """An EDITED copy of the API whose generation dies INSIDE API.build, after the first (types) pass has seen every
+    file: a new message in front (every descriptor path shifts), other comments, and one more long-running method whose
+    operation_info names a type that does not exist.  What a user has just before fixing the proto and regenerating."""
+    import copy
+    bad = copy.deepcopy(spec)
+    bad["comment_salt"] = "as edited"
+    f0 = bad["files"][0]
+    f0["messages"].insert(0, {"name": "ZzDraftNote", "fields": [{"name": "text", "number": 1, "type": "string"}]})
+    for fs in reversed(bad["files"]):
+        if fs.get("services"):
+            svc = fs["services"][-1]
+            any_msg = "." + fs["package"] + "." + f0["messages"][0]["name"] if fs is f0 else svc["methods"][0]["input"]
+            svc["methods"].append({"name": "ZzDraftRebuild", "input": any_msg, "output": ".google.longrunning.Operation",
+                                   "lro": {"response_type": "NoSuchDraftType", "metadata_type": "NoSuchDraftType"}})
+            break
+    return bad
+
+
 MIXIN_RULES = {
     "google.longrunning.Operations": {
         "ListOperations": {"get": "/v1/{name=projects/*}/operations"},
